@@ -8,7 +8,7 @@ PROP = "C16"
 
 
 def make_cases(rnd, tier, progs):
-    ps = progs(40 if tier == "quick" else 200)
+    ps = progs(100 if tier == "quick" else 500)
     out = []
     # exhaustive: every ordered pair of in-place transformations, with and without an interleaved query
     pairs = list(itertools.product(modcorr.TRANSFORMS, repeat=2))
@@ -18,7 +18,12 @@ def make_cases(rnd, tier, progs):
             body = [(0, a, True)] + [(0, q) for q in mid] + [(0, b, True)]
             hist, nobs = modcheck.hist_with_obs(rnd, body, 1)
             out.append(dict(src=src, hist=hist, nobs=nobs, family="all-pairs"))
-    n = 200 if tier == "quick" else 4000
+    # ... and every ordered pair on every structured program
+    for src in modcheck.FIXED_PROGRAMS:
+        for a, b in pairs:
+            hist, nobs = modcheck.hist_with_obs(rnd, [(0, a, True), (0, b, True)], 1)
+            out.append(dict(src=src, hist=hist, nobs=nobs, family="all-pairs-on-every-structured-program"))
+    n = 600 if tier == "quick" else 10000
     for k in range(n):
         src = ps[k % len(ps)]
         body, nmod = modcorr.random_history(rnd, rnd.randint(3, 8 if tier == "quick" else 12), two_modules=(rnd.random() < 0.4), p_transform=0.55)
